@@ -81,8 +81,11 @@ def gen_msg_ops(rng, r, subs, plan):
     ops = []
     if rng.random() < 0.7:
         ops.append("w:%d:%d" % (r, rng.choice([0, 1, 5, 100, 1234, NOLIM, QF0, rng.randint(0, 10)])))
-    for name in rng.sample(NAMES, rng.choice([0, 1, 2, 3, 4, 6])):
-        t = plan[name] if rng.random() < 0.85 else rng.choice(FIELD_T)
+    pool = [n for n in NAMES if n in ACTIVE and rng.random() < 0.75] if ACTIVE else rng.sample(NAMES, rng.choice([0, 2, 3, 4, 6, 8]))
+    if rng.random() < 0.15:
+        pool = pool + rng.sample(NAMES, 2)
+    for name in dict.fromkeys(pool):
+        t = plan[name] if rng.random() < 0.9 else rng.choice(FIELD_T)
         for _ in range(rng.choice([1, 1, 1, 2, 3])):
             ops.append("a:%d:%s:%s:%s" % (r, sx(name), t, val(rng, t if len(t) == 1 else "X")))
     for name in MNAMES:
@@ -114,47 +117,76 @@ def gen_filter(rng, depth, plan, regex_ok):
     return ops + ["f^:%d" % k]
 
 
+PRESENT = {}     # (namehex, type letter) -> values present in the Messages of the case being generated
+
+
+def operand(rng, name, t):
+    """an operand for a filter on field `name` of type t: mostly a value that some Message of the case holds there"""
+    have = PRESENT.get((sx(name), "i" if t == "C" else t))
+    if have and rng.random() < 0.65:
+        return rng.choice(have)
+    return val(rng, t)
+
+
+ACTIVE = []      # the handful of field names the case being generated concentrates on
+
+
 def pick_name(rng, plan, t):
-    c = [n for n, tt in plan.items() if tt == t]
-    if c and rng.random() < 0.8:
+    c = [n for n, tt in plan.items() if tt == t and (not ACTIVE or n in ACTIVE)]
+    if c and rng.random() < 0.9:
         return rng.choice(c)
+    if ACTIVE and rng.random() < 0.7:
+        return rng.choice(ACTIVE)
     return rng.choice(NAMES)
 
 
 def gen_leaf(rng, depth, plan, regex_ok):
     r = rng.random()
-    idx = rng.choice([0, 0, 0, 0, 1, 1, 2, 3, NOLIM])
+    idx = rng.choice([0] * 14 + [1, 1, 1, 2, 3, NOLIM])
     if r < 0.07:
         a, b = rng.choice([0, 1, 5, 100, NOLIM]), rng.choice([0, 1, 5, 100, 1234, NOLIM])
         return ["fw:%d:%d" % (a, b)]
     if r < 0.15:
-        t = rng.choice(["A", "A"] + FIELD_T + ["m"])
+        nm = rng.choice(ACTIVE) if (ACTIVE and rng.random() < 0.85) else rng.choice(NAMES + MNAMES)
+        t = rng.choice(["A", "A", "A"] + FIELD_T + ["m"] + ([plan[nm]] * 6 if nm in plan else []))
         tc = ANY if t == "A" else (12345 if t == "x12345" else TC[t])
-        return ["fe:%s:%d:%d" % (sx(rng.choice(NAMES + MNAMES)), idx, tc)]
+        return ["fe:%s:%d:%d" % (sx(nm), idx, tc)]
     if r < 0.62:
         t = rng.choice(NUMT + ["f", "d", "P", "i"] + (["C"] if rng.random() < 0.3 else []))
-        op = rng.choice([0, 1, 2, 3, 4, 5, 0, 1, 2, 3, 4, 5, 6, 7, 200, 255])
-        mop = rng.choice([0, 0, 0, 0, 1, 2, 3, 4, 5, 6, 7, 99, 255])
+        act_t = [plan[n] for n in ACTIVE if plan[n] in NUMT]
+        if act_t and rng.random() < 0.75:
+            t = rng.choice(act_t)
+        op = rng.choice([0, 1, 2, 3, 4, 5] * 8 + [6, 7, 200, 255])
+        mop = rng.choice([0] * 12 + [1, 2, 3, 4, 5, 6, 7, 99, 255])
         name = "" if (t == "C" and rng.random() < 0.8) else pick_name(rng, plan, "i" if t == "C" else t)
         if t == "C" and rng.random() < 0.8:
             idx = 0
         d = val(rng, t) if rng.random() < 0.4 else "-"
-        return ["fn:%s:%s:%d:%d:%d:%s:%s:%s" % (t, sx(name), idx, op, mop, val(rng, t), val(rng, t), d)]
+        return ["fn:%s:%s:%d:%d:%d:%s:%s:%s" % (t, sx(name), idx, op, mop, operand(rng, name, t), val(rng, t), d)]
     if r < 0.82:
-        ops_pool = list(range(0, 24)) + list(range(0, 12)) + [28, 99, 255] + ([24, 25, 26, 27] * 2 if regex_ok else [])
+        ops_pool = list(range(0, 24)) * 2 + list(range(0, 12)) * 2 + [28, 99, 255] + ([24, 25, 26, 27] * 2 if regex_ok else [])
         op = rng.choice(ops_pool)
         kind = "n" if rng.random() < 0.12 else "s"
         v = rng.choice(STRS)
         if op in (24, 25, 26, 27):
             v = rng.choice(PATTERNS)
         d = sx(rng.choice(STRS)) if rng.random() < 0.35 else "-"
-        return ["fs:%s:%s:%d:%d:%s:%s" % (kind, sx(pick_name(rng, plan, "s")), idx, op, sx(v), d)]
+        nm = pick_name(rng, plan, "s")
+        vx = sx(v)
+        if op < 24:
+            vx = operand(rng, nm, "s")
+        return ["fs:%s:%s:%d:%d:%s:%s" % (kind, sx(nm), idx, op, vx, d)]
     t = rng.choice(["A", "A", "X", "X", "i", "s", "c", "x12345", "d"])
     tc = ANY if t == "A" else (12345 if t == "x12345" else TC[t])
     op = rng.choice(list(range(0, 12)) * 2 + [12, 77, 255])
     v = rng.choice(RAWS + [sx(s) for s in STRS if s]) if rng.random() < 0.93 else "-"
     d = rng.choice(RAWS) if rng.random() < 0.3 else "-"
     name = rng.choice([n for n in NAMES])         # never a sub-Message field: its "raw bytes" are a pointer
+    if t in ("X", "A") and v != "-":
+        name = pick_name(rng, plan, rng.choice(["X", "x12345"]))
+        have = PRESENT.get((sx(name), "X")) or PRESENT.get((sx(name), "x12345"))
+        if have and rng.random() < 0.6:
+            v = rng.choice(have)
     return ["fr:%s:%d:%d:%d:%s:%s" % (sx(name), idx, op, tc, v, d)]
 
 
@@ -166,6 +198,12 @@ def gen_tree_case(rng, depth, regex_ok=False):
     plan = {}
     for n in NAMES:
         plan[n] = rng.choice(FIELD_T)
+    ACTIVE[:] = rng.sample(NAMES, rng.choice([3, 4, 5, 6]))
+    for n in ACTIVE:      # make the popular filter types well represented among the active fields
+        if rng.random() < 0.5:
+            plan[n] = rng.choice(["i", "f", "d", "s", "P", "X", "c", "l"])
+    plan[ACTIVE[0]] = "s"
+    plan[ACTIVE[1]] = rng.choice(["X", "x12345", "i", "f"])
     ops = []
     subs = []
     for r in (7, 6, 5, 4, 3, 2, 1, 0):
@@ -176,6 +214,11 @@ def gen_tree_case(rng, depth, regex_ok=False):
             subs.append(r)
     if rng.random() < 0.25:
         ops.append("n:%d:%s" % (rng.choice([0, 0, 1, 2, 3, 5]), sx(rng.choice(STRS))))
+    PRESENT.clear()
+    for o in ops:
+        a = o.split(":")
+        if a[0] == "a":
+            PRESENT.setdefault((a[2], a[3]), []).append(a[4])
     ops += gen_filter(rng, depth, plan, regex_ok)
     return "T|" + ";".join(ops)
 
@@ -186,6 +229,7 @@ ARCH_NAMES = ["fn", "idx", "op", "mop", "val", "msk", "min", "max", "type", "kid
 
 
 def gen_hostile_case(rng, nest):
+    ACTIVE[:] = []
     """register 0 is offered as an archive.  It is assembled from fields with the right names but wrong types /
     counts / what-codes, nested through `kid` up to `nest` levels (registers are composed bottom-up)."""
     ops = []
@@ -217,6 +261,7 @@ def gen_hostile_case(rng, nest):
 
 
 def gen_mutated_archive_case(rng):
+    ACTIVE[:] = []
     """a valid filter is archived by the *generator's own* description (fields as ops), then one field is damaged"""
     ops = []
     for r in (5, 6, 7):
@@ -537,6 +582,21 @@ class CHECK(vlib.Check):
             "objects' members, decisions, archive content, restored tree and decisions) is compared with the extracted model; the "
             "harness's own documented-semantics evaluator, byte-identity of the Messages and restored-decides-identically are the oracle. "
             "Non-trivial = at least two filter nodes or a float/double/Point/Rect comparison, and at least one non-empty Message.")
+
+    def build(self):
+        """the generic build; the model's extraction is retried when another check recompiled Gen/Consts.vo between
+        the make of its dependencies and the extraction itself (seen as "inconsistent assumptions over library")"""
+        impl = vlib.build_harness(**self.harness)
+        last = None
+        for attempt in range(4):
+            try:
+                return impl, vlib.build_model(*self.model)
+            except RuntimeError as ex:
+                last = ex
+                if "inconsistent assumptions" not in str(ex):
+                    raise
+                vlib.log("[C14] extraction raced with another check's rebuild of Gen/Consts.vo; retrying (%d)" % (attempt + 1))
+        raise last
 
     def gen_cases(self, rng, tier):
         n = 900 if tier == "quick" else 12000
